@@ -78,7 +78,7 @@ check(
 check(
     "C14",
     "other",
-    "bounded symbolic verification of position normalisation only: the real Errors.report clamps and the location prefix rendered by Errors.format_messages_default are executed for every (line, column, end_line, end_column) incl. None/-1; obligations: the end position handed on and printed is never before the start, the printed column is 1-based and >= 1. Of the parser-equivalence half only the part that is mypy's own Python code is covered: BuildManager.parse_all (native-parser batches) must deserialise every file under its own path and the options that include its inline configuration (kernel shared with C17/K5; replay = native vs default parser runs). Equivalence of the external compiled front end itself and 'line exists / column within the line' are not applicable to this technique and are not claimed.",
+    "bounded symbolic verification of position normalisation only: the real Errors.report clamps and the location prefix rendered by Errors.format_messages_default are executed for every (line, column, end_line, end_column) incl. None/-1; obligations: the end position handed on and printed is never before the start, the printed column is 1-based and >= 1. Of the parser-equivalence half only the part that is mypy's own Python code is covered: BuildManager.parse_all (native-parser batches) must deserialise every file under its own path and the options that include its inline configuration (kernel shared with C17/K5; replay = native vs default parser runs). (K6) generated programs - construct snippets with position probes, module heads with ignore comments in every position, invalid texts; the solver chooses the program - are built with the default and with the native parser: identical diagnostics incl. columns and end positions, and a blocking error from one exactly when from the other. Equivalence on all other source files and 'line exists / column within the line' in general are not claimed.",
     "trusted: z3; stub Errors self without scope/watchers; --pretty marker arithmetic only when the K3 section is present in evidence",
     "symbolic execution of real Python source with z3 (decision-replay)",
     "DESIGN.md 4/C14",
